@@ -4,7 +4,7 @@
     model and the specification, never a proof file. *)
 From Coq Require Import String.
 From Coq Require Import List Ascii ZArith Bool.
-From CGV Require Import Base.PyBase Base.PyVal Dialect.DialectImpl Frag.NDict Frag.StripImpl Frag.FragText Frag.FragTextX Frag.SmilesParse Frag.Template Frag.TemplateFinal Frag.TemplateChiral.
+From CGV Require Import Base.PyBase Base.PyVal Dialect.DialectImpl Frag.NDict Frag.StripImpl Frag.FragText Frag.FragTextX Frag.FragTextW Frag.SmilesParse Frag.Template Frag.TemplateFinal Frag.TemplateChiral.
 Import ListNotations.
 
 (** what the implementation did: the class name of the exception, or the four returned values *)
@@ -131,7 +131,7 @@ Definition prop_fail (c : case) : nat :=
   | CStrip text fo true toks dc impl =>
       let items := decorate toks dc in
       if negb (str_eqb (render items) text) then 98
-      else if negb (wfx toks dc) then 97
+      else if negb (wfw toks dc) then 97
       else match strip_spec (fo_of_table fo) toks dc with
            | Err _ => 0                                   (* an annotation outside the dialect: not judged here (C14/C20) *)
            | Ok exp => match clause exp impl with 0 => 0 | n => n + 10 * class_of items end
